@@ -99,7 +99,7 @@ def run_check(tier, seed, replay=None):
     mc = tlc_mc("MC_Decoder.tla", T["cfg"], "c11_mc", timeout=T["mc_timeout"], edges_out=hist)
     log("model: %s" % mc)
     trace = os.path.join(BUILD, "c11.trace.ndjson")
-    info = vh(["drive-decoder", "--histories", hist, "--random", str(T["random"]), "--seed", str(seed), "--out", trace])
+    info = vh(["drive-decoder", "--histories", hist, "--typed-sweep", GRAMMAR, "--random", str(T["random"]), "--seed", str(seed), "--out", trace])
     n, bad, dt = validate_decoder_trace(rep, trace, "c11_trace")
     log("trace: %d events, %d rejected, %.1fs" % (n, len(bad), dt))
     cls = coverage_classes(trace)
